@@ -34,7 +34,8 @@ pub fn case(prop: WorldProp, k: u64, seed: u64, thorough: bool) -> WorldCase {
 
 const VARS: [&str; 4] = ["x0", "x1", "x2", "x3"];
 const PROGS: [&str; 5] = ["p0", "p1", "p2", "p3", "p4"];
-const KEYS: [&str; 12] = ["a", "b", "c", "d", "e", "f", "g", "h", "k1", "k2", "zz", "m"];
+/// includes keys that differ only in letter case and keys that are prefixes of one another
+const KEYS: [&str; 18] = ["a", "b", "c", "d", "e", "f", "g", "h", "k1", "k2", "zz", "m", "A", "K1", "Zz", "zZ", "aa", "B"];
 
 /// an instant between 2001 and 2090 with nanosecond detail
 fn instant(r: &mut Rng) -> i64 {
@@ -269,7 +270,7 @@ fn gen11(seed: u64) -> WorldCase {
         let my_binds: Vec<usize> = st.binds.iter().filter(|(_, o)| *o == t).map(|(b, _)| *b).collect();
         // bias: a clone right after a mutation
         let w_clone = if last_mutation { 6 } else { 2 };
-        let choice = r.weighted(&[6, 1, w_clone, 1, 6, w_clone, 12, if clock { 3 } else { 1 }, 1, 1]);
+        let choice = r.weighted(&[6, 1, w_clone, 1, 6, w_clone, 12, if clock { 3 } else { 1 }, 1, 1, 2, 2, 1]);
         last_mutation = false;
         match choice {
             0 | 1 => {
@@ -371,12 +372,84 @@ fn gen11(seed: u64) -> WorldCase {
                     st.next_b += 1;
                 }
             }
-            _ => {
+            9 => {
                 if let Some(b) = my_binds.get(r.usize(my_binds.len().max(1))) {
                     // a bound function; the name never collides with a built-in (C09 leaves
                     // rebound built-ins out of scope)
                     let name = r.pick(&["myf", "g1"]).to_string();
                     ops.push(Op { t, k: OpK::BindFunc { b: *b, name, ret: value(&mut r, 1) } });
+                }
+            }
+            10 => {
+                // sibling binding sets: clone, then the same number of rebinds of the same
+                // names with different values on each side, then the same program of the same
+                // context executed with one and then the other
+                if let Some(b) = my_binds.get(r.usize(my_binds.len().max(1))) {
+                    if st.binds.len() < 8 {
+                        let to = st.next_b;
+                        st.next_b += 1;
+                        st.binds.push((to, t));
+                        ops.push(Op { t, k: OpK::CloneB { from: *b, to } });
+                        let rounds = r.usize(3);
+                        for _ in 0..rounds {
+                            let name = r.pick(&VARS).to_string();
+                            ops.push(Op { t, k: OpK::Bind { b: *b, name: name.clone(), val: value(&mut r, 2) } });
+                            ops.push(Op { t, k: OpK::Bind { b: to, name, val: value(&mut r, 2) } });
+                        }
+                        let (c, names) = &st.ctxs[r.usize(st.ctxs.len())];
+                        if !names.is_empty() {
+                            let name = r.pick(names).clone();
+                            for bb in [*b, to, *b] {
+                                ops.push(Op { t, k: OpK::Exec { c: *c, name: name.clone(), b: bb, times: 1, keys: r.bytes16(), minimal: r.chance(1, 2) } });
+                            }
+                        }
+                    }
+                }
+            }
+            11 => {
+                // sibling contexts: clone, replace the same program on each side with another
+                // text, execute the same name (and a program referring to it) on both
+                if st.ctxs.len() < 4 {
+                    if let Some(b) = my_binds.get(r.usize(my_binds.len().max(1))) {
+                        let fi = r.usize(st.ctxs.len());
+                        let (from, mut names) = st.ctxs[fi].clone();
+                        let to = st.next_c;
+                        st.next_c += 1;
+                        ops.push(Op { t, k: OpK::CloneCtx { from, to } });
+                        let idx = r.usize(3);
+                        let name = PROGS[idx].to_string();
+                        let known: Vec<String> = PROGS[..idx].iter().map(|s| s.to_string()).collect();
+                        for c in [from, to] {
+                            let src = gen_src(&mut r, &known, clock);
+                            ops.push(Op { t, k: OpK::Add { c, name: name.clone(), src, must_read: false } });
+                        }
+                        if !names.contains(&name) {
+                            names.push(name.clone());
+                            st.ctxs[fi].1.push(name.clone());
+                        }
+                        st.ctxs.push((to, names.clone()));
+                        let exec_name = r.pick(&names).clone();
+                        for c in [from, to, from] {
+                            ops.push(Op { t, k: OpK::Exec { c, name: exec_name.clone(), b: *b, times: 1, keys: r.bytes16(), minimal: r.chance(1, 2) } });
+                        }
+                    }
+                }
+            }
+            _ => {
+                // a program that runs into the depth limit (one reference per program, so the
+                // evaluation is linear), executed up to 40 times: what happens on the failure
+                // path must not leak into later executions on this thread or context
+                if let Some(b) = my_binds.get(r.usize(my_binds.len().max(1))) {
+                    let ci = r.usize(st.ctxs.len());
+                    let (c, names) = &mut st.ctxs[ci];
+                    let src = *r.pick(&["cyc + 1", "[1].map(v, cyc)[0]", "'a' + coalesce(cyc, 'x')", "f'{cyc}'", "[cyc][0]", "(x0 == x0) ? cyc : 0"]);
+                    ops.push(Op { t, k: OpK::Add { c: *c, name: "cyc".into(), src: src.into(), must_read: false } });
+                    let times = *r.pick(&[1u8, 2, 3, 17, 33, 40]);
+                    ops.push(Op { t, k: OpK::Exec { c: *c, name: "cyc".into(), b: *b, times, keys: r.bytes16(), minimal: true } });
+                    if !names.is_empty() {
+                        let name = r.pick(names).clone();
+                        ops.push(Op { t, k: OpK::Exec { c: *c, name, b: *b, times: 1, keys: r.bytes16(), minimal: r.chance(1, 2) } });
+                    }
                 }
             }
         }
@@ -524,7 +597,7 @@ fn gen11_interleave(seed: u64) -> WorldCase {
 // ---------------------------------------------------------------------------------------------
 
 /// (text, every evaluation reads the clock)
-const CLOCK_TEXTS: [(&str, bool); 30] = [
+const CLOCK_TEXTS: [(&str, bool); 44] = [
     ("now()", true),
     ("timestamp()", true),
     ("now() - timestamp(0)", true),
@@ -555,6 +628,36 @@ const CLOCK_TEXTS: [(&str, bool); 30] = [
     ("size([now(), now()])", true),
     ("type(now())", true),
     ("[1, 2, 3].reduce(acc, e, acc + int(now()) * 0 + e, 0)", true),
+    // the constructor reached through a computed callee
+    ("[timestamp][0]()", true),
+    ("[duration, timestamp][1]()", true),
+    ("type(timestamp(0))()", true),
+    // the call several argument levels below calls the folder could evaluate
+    ("timestamp(timestamp(now()))", true),
+    ("timestamp(string(timestamp(timestamp())))", true),
+    ("max(timestamp(0), min(now(), timestamp(4102444800)))", true),
+    ("int(string(int(now())))", true),
+    ("size([[now()], [timestamp()]])", true),
+    ("[1].map(v, timestamp(now()))[0]", true),
+    ("[1].map(v, v > 0, timestamp())", true),
+    ("[1, 2].reduce(acc, v, timestamp(), timestamp(0))", true),
+    ("[1, 2].reduce(acc, v, acc, now())", true),
+    ("[[1]].map(v, v.map(w, now()))", true),
+    ("{'a': [1].map(v, {'t': timestamp()})}", true),
+];
+
+/// wrappers the constant folder could evaluate if their argument were constant
+const FOLDABLE_WRAPS: [&str; 10] = [
+    "timestamp({})",
+    "string({})",
+    "type({})",
+    "[{}][0]",
+    "max(timestamp(0), {})",
+    "min({}, timestamp(4102444800))",
+    "[1].map(v, {})[0]",
+    "coalesce(null, {})",
+    "(true ? {} : timestamp(0))",
+    "[0, 1].reduce(acc, v, {}, timestamp(0))",
 ];
 
 const BOUNDARIES: [i64; 10] = [
@@ -657,6 +760,14 @@ fn gen09(seed: u64) -> WorldCase {
                     0 => {
                         let (s, m) = *r.pick(&CLOCK_TEXTS);
                         (s.to_string(), m)
+                    }
+                    1 if r.chance(1, 2) => {
+                        // the bare call under 1..4 levels of calls the folder could evaluate
+                        let mut s = r.pick(&["now()", "timestamp()"]).to_string();
+                        for _ in 0..(1 + r.usize(4)) {
+                            s = r.pick(&FOLDABLE_WRAPS).replace("{}", &s);
+                        }
+                        (s, true)
                     }
                     1 => {
                         // composition: a clock text inside a generated expression without map literals
